@@ -71,28 +71,29 @@ type BoundExceeded struct{ what string }
 
 // Worker executes one job: its own solver, budgets and result records.
 type Worker struct {
-	eng        *Engine
-	solver     *Solver
-	job        *JobResult
-	shard      int
-	nshards    int
-	maxSteps   int64
-	steps      int64
-	deadline   time.Time
-	maxDepth   int
-	fnSeen     map[*ssa.Function]int
+	eng           *Engine
+	solver        *Solver
+	job           *JobResult
+	shard         int
+	nshards       int
+	maxSteps      int64
+	steps         int64
+	deadline      time.Time
+	maxDepth      int
+	fnSeen        map[*ssa.Function]int
 	noMerge       bool
 	mergeConcrete bool
-	nameCtr    map[string]int
-	prefix     []int // pre-assigned choices (unused in shard mode)
-	states     int64
-	branches   int64
-	merges     int64
-	trace      bool
-	stack      []string
-	panicStack []string
-	profile    map[string]int
-	curInstr   string
+	nameCtr       map[string]int
+	prefix        []int // pre-assigned choices (unused in shard mode)
+	states        int64
+	branches      int64
+	merges        int64
+	trace         bool
+	stack         []string
+	panicStack    []string
+	profile       map[string]int
+	scoped        map[string]*ssa.Function
+	curInstr      string
 }
 
 func (f *frame) clone() *frame {
@@ -190,7 +191,9 @@ func (w *Worker) call(st *State, fv *FuncV, args []Value, depth int, site string
 	if h, ok := natives[name]; ok {
 		return h(w, st, args, fv, depth)
 	}
-	if r, ok := w.eng.redirect[name]; ok {
+	if r, ok := w.scoped[name]; ok && r != fn {
+		fn = r
+	} else if r, ok := w.eng.redirect[name]; ok {
 		fn = r
 	} else if w.eng.isIntrinsic(fn) {
 		h, ok := natives["intrinsic:"+fn.Name()]
